@@ -2,7 +2,7 @@
 from . import vise, core
 PID = 'C08'
 MC = ['C08_NoPanic', 'C08_Consistent', 'C08_Levels']
-TR = ['C08_NoPanic', 'C08_Levels', 'C08_Account', 'C08_ReqNoPanic', 'C08_ReqLevels', 'C08_ReqAccount', 'C08_Resumable', 'C08_RefusedContinuable', 'C08_ReqContinuable']
+TR = ['C08_NoPanic', 'C08_Levels', 'C08_Account', 'C08_ReqNoPanic', 'C08_ReqLevels', 'C08_ReqAccount', 'C08_Resumable', 'C08_RefusedContinuable', 'C08_ReqContinuable', 'C08_LoopNoPanic']
 
 
 def run(tier):
